@@ -1,8 +1,8 @@
 PROP = dict(
     id="C16",
     lean_modules=["TongoProofs.C16"],
-    gen=["LevelMask", "TlbTypes", "IntTypes"],
-    spec_ops=("msg.hash", "tx.hash"),
+    gen=["LevelMask", "CellDesc", "BocHeader", "MinBits", "TlbTypes", "IntTypes"],
+    spec_ops=("msg.hash", "tx.hash", "tx.seq", "msg.seq"),
     rule="synthetic messages: the three info kinds in turn; src/dest over none/extern/std/var (incl. off-schema kinds the "
          "decoder accepts), anycast on a third of the addresses; init absent / inline (all optional parts) / in a "
          "reference; body inline / in a reference, body root of 0..1023 bits and 0..4 references over random DAGs, flipped "
@@ -12,7 +12,9 @@ PROP = dict(
          "whole body (must differ); every transaction of the blocks in tlb/testdata (found by decoding every cell tagged "
          "0111) and every message of those transactions; every one of these also with one leaf replaced by a well-formed "
          "pruned branch (source cell of level 1), through the plain and the hasher-carrying decoder, and four at a time "
-         "through ONE shared hasher. non-trivial = distinct message / transaction table",
+         "through ONE shared hasher; scripts over ONE reused tlb.Transaction / tlb.Message variable (decodes of three sources "
+         "with SourceBoc()/Hash()/Hash(true) interleaved, fixed and random orders, plain / shared-hasher / fresh-hasher "
+         "decoders). non-trivial = distinct message / transaction table",
     trusted_base=[
         "hand model lean/TongoModel/Message.lean (message layout as bit lists, shallow StateInit, the canonical ext-in "
         "builder) tied to tlb/messages.go, tlb/transactions.go by msg.hash / tx.hash on every run: Hash(false), Hash(true), "
@@ -53,7 +55,12 @@ PROP = dict(
                "import fee < 2^120, absent/inline/referenced state-init and inline/referenced body "
                "(norm_ignores_src_fee_init_placement, body_inline_eq_ref; address, VarUInteger 16 and StateInit "
                "decode-after-encode lemmas); different destinations or bodies give different normalised hashes under the "
-               "collision-freedom of H on the two canonical representations (norm_distinguishes; canonRepr_injective, encodeAddr_injective proved); non-ext-in unchanged. "
+               "collision-freedom of H on the two canonical representations (norm_distinguishes; canonRepr_injective, encodeAddr_injective proved); non-ext-in unchanged; "
+               "decode-after-encode for internal, external-in and external-out messages (msg_roundtrip_all_kinds); the layout is "
+               "the one block.tlb prescribes and the one of the regenerated Go descriptor (layout_is_block_tlb, "
+               "layout_matches_go_descriptor: a changed struct tag in tlb/messages.go breaks an obligation); "
+               "source_boc_roundtrip through C01 roundtrip; source_boc_tracks_last_decode: on ONE reused Transaction variable "
+               "SourceBoc and Hash are functions of the LAST decoded source, whatever the order of the calls. "
                "Tie: exact comparison of Go's Hash(false)/Hash(true) with the model on ~11k messages and ~2k transactions per run "
                "(plain and hasher-carrying decoders, with and without a pruned branch below the source cell), plus direct oracles (hash == Cell.Hash with/without hasher, moved cursors, enclosing "
                "records, equal/unequal classes, canonical re-encoding through tlb.Marshal, SourceBoc parsed back, Hash(true) "
